@@ -16,7 +16,7 @@ VARIANTS = [
       "                            weights[i] -= 0.5*(grid_1D[i + 1] - grid_1D[i])", "C09.D1"),
     V("C09-b04-cached-state", "break",
       "        return GlobalTrapezoidalGrid.compute_weights(grid_1D, a, b, self.modified_basis)",
-      "        key = len(grid_1D)\n        if not hasattr(self, '_w_cache'):\n            self._w_cache = {}\n        if key not in self._w_cache:\n            self._w_cache[key] = GlobalTrapezoidalGrid.compute_weights(grid_1D, a, b, self.modified_basis)\n        return self._w_cache[key]", "C09.D2", nth=0),
+      "        key = len(grid_1D)\n        if not hasattr(self, '_w_cache'):\n            self._w_cache = {}\n        if key not in self._w_cache:\n            self._w_cache[key] = GlobalTrapezoidalGrid.compute_weights(grid_1D, a, b, self.modified_basis)\n        return self._w_cache[key]", "C09.S2", nth=0),
     V("C09-b05-boundary-correction-term", "break", "            if modified_basis:\n                weights[0] = 0.0\n                weights[-1] = 0.0\n",
       "            if modified_basis:\n                weights[0] = 0.0\n                weights[-1] = 0.0\n            else:\n                weights[0] -= 0.25 * (grid_1D[1] - grid_1D[0]) * (len(grid_1D) > 33)\n", "C09.D1"),
     V("C09-b06-sortedness-assert-after-weights", "break",
